@@ -2,12 +2,13 @@ from propcommon import *  # noqa
 
 CFG = dict(
     level="proof",
-    lean_modules=["ElysModel.Props.C09"],
-    props_files=["ElysModel/Props/C09.lean"],
+    lean_modules=["ElysModel.Props.C09", "ElysModel.Props.C09Src"],
+    pre_cmds=[GO2LEAN],
+    props_files=["ElysModel/Props/C09.lean", "ElysModel/Props/C09Src.lean"],
     runs=[scn_run("c09"), hist_run(focus="perp."), fault_run(focus="perp.", whale=True)],
     rule=HIST_RULE + "; plus directed scenarios (mode scn, prefix c09)",
-    trusted_base=COMMON_TB + ["the block's perpetual macro-op is reconstructed from the positions' own field changes (W); the pool aggregates are predicted and compared"],
-    assumptions=["the arithmetic that reduces a position's fields to zero before DestroyMTP is not modelled (residual-zero side condition; witness theorem shows what happens otherwise)"],
+    trusted_base=COMMON_TB + [SRC_TB, "the block's perpetual macro-op is reconstructed from the positions' own field changes (W); the pool aggregates are predicted and compared"],
+    assumptions=[SRC_ASSUME, "the arithmetic that reduces a position's fields to zero before DestroyMTP is not modelled (residual-zero side condition; witness theorem shows what happens otherwise)"],
     explanation="Theorems over paired position/pool updates, open, destroy (partial), atomic macro-ops and histories; custody backing (partial). "
                 "Predicates evaluated on every observed block; the world has two perpetual pools sharing the trading asset."
                 " Id allocation: no stored position's id exceeds the counter and no id is stored twice over all histories of opens, closes and genesis export/import restarts (ids_never_reused; witness of the import-by-length rule); evaluated on every observed block.",
